@@ -96,3 +96,20 @@ def tuple_everywhere(struct):
         if not tuple_everywhere(frag):
             return False
     return True
+
+
+def constants_lint(ctx, rule, names, why):
+    """Obligation per constant: the value folded from constants.py is the CODATA/AME reference within 1e-6 relative."""
+    from spec.constants import REFERENCE, REL
+    F = folder(ctx)
+    for n in names:
+        ref, unit = REFERENCE[n]
+        try:
+            v = F.const("constants", n)
+        except Exception as exc:
+            raise AnalysisError(f"constants.{n} cannot be folded from the source ({exc})")
+        ok = isinstance(v, (int, float)) and abs(float(v) - ref) <= REL * abs(ref)
+        ctx.check(ok, rule, f"constants.{n} is the reference value {ref:g} {unit} within 1e-6 ({why})",
+                  f"constants.{n} = {v!r}; reference {ref!r} {unit} (relative difference "
+                  f"{abs(float(v) - ref) / abs(ref):.2g})" if isinstance(v, (int, float)) else f"constants.{n} = {v!r}",
+                  "periodictable/constants.py " + n, sample={"value": v, "reference": ref})
